@@ -710,8 +710,10 @@ func (r *runner) diagnoseIndexError(q Query, ra hx.Result, driving []*F) string 
 	}
 	if jsonInIndex && onField("j") {
 		rootCond := false
+		jFirst := r.c.Idx[i].Fields[0].F == "j"
 		walkLeaves(q.Filter, false, func(l *F, underNot bool) {
-			if l.Field == "j" && !underNot && len(l.Path) == 0 && l.Arr == "" && l.Cmp != "_eq" && l.Cmp != "_in" {
+			// on a later field of a composite index every operator goes through a matcher
+			if l.Field == "j" && !underNot && len(l.Path) == 0 && l.Arr == "" && (!jFirst || (l.Cmp != "_eq" && l.Cmp != "_in")) {
 				rootCond = true
 			}
 		})
@@ -732,6 +734,22 @@ func emptyOrNullArray(v any) bool {
 
 // diagnoseRows explains a row difference part by part (missing, extra, duplicated rows). It
 // returns a known-finding signature only when every non-empty part is explained by one.
+// underNegatedCompound reports whether leaf l sits below a _not whose operand is a compound.
+func underNegatedCompound(f *F, l *F, under bool) bool {
+	if f == nil {
+		return false
+	}
+	if f == l {
+		return under
+	}
+	for _, k := range f.Kids {
+		if underNegatedCompound(k, l, under || (f.Op == "not" && k.Op != "leaf")) {
+			return true
+		}
+	}
+	return false
+}
+
 func (r *runner) diagnoseRows(q Query, d rowDiff, driving []*F) string {
 	var sigs []string
 	if len(d.missing) > 0 {
@@ -764,8 +782,17 @@ func (r *runner) diagnoseRows(q Query, d rowDiff, driving []*F) string {
 // indexArrayFields lists the array fields of composite candidate indexes.
 func (r *runner) compositeArrayFields(q Query) []FieldDef {
 	var out []FieldDef
-	for _, i := range r.candidateIndexes(q) {
-		ix := r.c.Idx[i]
+	// every index the planner may have taken: its first field is mentioned by the filter or is the
+	// first order key (the planner's choice is not modelled exactly when relations are involved)
+	mentioned := map[string]bool{}
+	walkLeaves(q.Filter, false, func(l *F, _ bool) { mentioned[leafKey(l)] = true })
+	if len(q.Order) > 0 {
+		mentioned[q.Order[0].F] = true
+	}
+	for i, ix := range r.c.Idx {
+		if !r.exists[i] || !mentioned[fdef(ix.Fields[0].F).selName()] {
+			continue
+		}
 		if len(ix.Fields) < 2 {
 			continue
 		}
@@ -845,7 +872,7 @@ func (r *runner) explainMissing(q Query, missing []map[string]any, driving []*F)
 	// the join is inverted when an index exists and then starts from the related documents
 	relNe := false
 	walkLeaves(q.Filter, false, func(l *F, underNot bool) {
-		relNe = relNe || (fdef(l.Field).Kind == "rel" && len(l.Path) > 0 && !underNot && l.Cmp == "_ne")
+		relNe = relNe || (fdef(l.Field).Kind == "rel" && len(l.Path) > 0 && !underNot)
 	})
 	ownerIndexed := r.c.UIndex
 	for i, ix := range r.c.Idx {
@@ -901,9 +928,30 @@ func (r *runner) explainMissing(q Query, missing []map[string]any, driving []*F)
 			if !underNot && inIndex[leafKey(l)] && underMultiOr(q.Filter, l, false) {
 				found = true
 			}
+			// a negated compound (_not over _and/_or/_not) is rewritten by the same copy-and-normalise
+			// step, which can turn a condition of an index field inside it into a positive one
+			if underNot && inIndex[leafKey(l)] && underNegatedCompound(q.Filter, l, false) {
+				found = true
+			}
 		})
 		if found {
 			return sigOrBranch
+		}
+		// a range operator with a null operand on an index field: the index matcher reads it as
+		// "is not null", the scan path lets null satisfy _le / _ge null
+		nullRange := ""
+		walkLeaves(q.Filter, false, func(l *F, underNot bool) {
+			if underNot || !inIndex[leafKey(l)] {
+				return
+			}
+			for _, c := range [][2]string{{l.Cmp, l.Val}, {l.Cmp2, l.Val2}} {
+				if (c[0] == "_le" || c[0] == "_ge" || c[0] == "_lt" || c[0] == "_gt") && c[1] == "null" {
+					nullRange = leafKey(l)
+				}
+			}
+		})
+		if nullRange != "" && every(func(row map[string]any) bool { return row[nullRange] == nil }) {
+			return sigRangeNullOperand
 		}
 	}
 	for _, l := range driving {
@@ -934,17 +982,37 @@ func (r *runner) explainMissing(q Query, missing []map[string]any, driving []*F)
 			every(func(row map[string]any) bool { return row[sel] == nil }) {
 			return sigNlikeNull
 		}
-		// a condition on the JSON value itself (no path) other than equality: the index matches it
-		// against every leaf at any path instead of against the root value
-		if fd.Kind == "json" && len(l.Path) == 0 && l.Arr == "" && l.Cmp != "_eq" && l.Cmp != "_in" &&
-			every(func(row map[string]any) bool {
-				switch row["j"].(type) {
-				case map[string]any, []any:
-					return true
+		// JSON conditions evaluated against index leaves instead of the value the filter names:
+		//  - a condition on the JSON value itself (no path) other than equality is matched against
+		//    every leaf at any path: a document whose root is an object/array comes out only if
+		//    one of its leaves happens to match;
+		//  - _nlike / _nilike: the like matcher answers "no match" for any leaf that is not a
+		//    string, whatever the negation, so documents holding a non-string value there are dropped.
+		if fd.Kind == "json" && l.Arr == "" {
+			negLike := l.Cmp == "_nlike" || l.Cmp == "_nilike"
+			rootOther := len(l.Path) == 0 && l.Cmp != "_eq" && l.Cmp != "_in"
+			anyContainer := false
+			if (negLike || rootOther) && every(func(row map[string]any) bool {
+				v, found := jsonAt(row["j"], l.Path)
+				if !found || row["j"] == nil {
+					return false
 				}
-				return false
+				switch v.(type) {
+				case map[string]any, []any:
+					anyContainer = true
+					return rootOther
+				case string:
+					return rootOther
+				}
+				// a scalar root: the operand of a root condition is encoded as a plain scalar, not
+				// as a JSON value, so range bounds and matchers do not line up with the entries
+				return negLike || rootOther
 			}) {
-			return sigJSONRootOnLeaves
+				if anyContainer || !negLike {
+					return sigJSONRootOnLeaves
+				}
+				return sigJSONNlikeNonString
+			}
 		}
 	}
 	return ""
